@@ -113,7 +113,6 @@ func init() {
 		"strings.Replace":                 ext۰strings۰Replace,
 		"strings.ToLower":                 ext۰strings۰ToLower,
 		"time.Sleep":                      ext۰time۰Sleep,
-		"unicode/utf8.DecodeRuneInString": ext۰unicode۰utf8۰DecodeRuneInString,
 	})
 }
 
